@@ -33,9 +33,10 @@ static int check_members(Buffer::auto_grow mode) {
 }
 
 static int check_discussion(Buffer::auto_grow mode) {
-    for (size_t cap = 64; cap <= 512; cap += 8) for (size_t ulen = 1; ulen <= 120; ulen += 7) {
+    for (int committed_before = 0; committed_before < 2; ++committed_before) for (size_t cap = 64; cap <= 512; cap += 8) for (size_t ulen = 1; ulen <= 120; ulen += 7) {
         Buffer buf{cap, mode};
         std::string user(ulen, 'n'), text(ulen * 2 + 3, 't');
+        if (committed_before) { { osmium::builder::NodeBuilder nb{buf}; nb.set_id(1); nb.set_user("n"); } buf.commit(); }   // committed() != 0 while the discussion is built
         { osmium::builder::ChangesetBuilder cb{buf}; cb.set_id(5); cb.set_user("x");
           { osmium::builder::ChangesetDiscussionBuilder db{cb}; db.add_comment(osmium::Timestamp{uint32_t(100)}, 42, user.c_str()); db.add_comment_text(text.c_str());
             db.add_comment(osmium::Timestamp{uint32_t(200)}, 43, "second"); db.add_comment_text("t2"); } }
